@@ -85,6 +85,9 @@ pub fn family(f: usize) -> Vec<(&'static str, SGeom)> {
             ("path width 1", SGeom::Path(vec![(0, 0), (100, 0), (100, 50)], 1)),
             ("path width 1 drawn right-to-left at negative coordinates", SGeom::Path(vec![(-10, -5), (-51, -5), (-51, -40)], 1)),
             ("path drawn top-to-bottom", SGeom::Path(vec![(0, 40), (0, 0), (30, 0)], 4)),
+            // a ring: the path returns to its first point (it is still an open point list, 5 points)
+            ("path ring returning to its start", SGeom::Path(vec![(0, 0), (100, 0), (100, 100), (0, 100), (0, 0)], 10)),
+            ("path out and back", SGeom::Path(vec![(0, 0), (50, 0), (0, 0)], 2)),
         ],
     }
 }
@@ -179,6 +182,25 @@ fn gen_lib(c: &mut Chooser) -> Case {
             leaf.shapes.push(focus);
         }
         _ => leaf.shapes.push(focus),
+    }
+    // cell names that differ only in letter case (c0_top / C0_TOP-like pairs): the second cell becomes the upper-case
+    // spelling of the first one's name
+    if n >= 2 && c.cost(2, "cell-names-differ-in-case-only") == 1 {
+        tags.push("names:case-variants");
+        let upper = CELL_NAMES[0].to_uppercase();
+        let old = CELL_NAMES[1];
+        for cell in cells.iter_mut() {
+            if cell.name == old {
+                cell.name = upper.clone();
+            }
+            if let Some(l) = cell.layout.as_mut() {
+                for i in l.insts.iter_mut() {
+                    if i.cell == old {
+                        i.cell = upper.clone();
+                    }
+                }
+            }
+        }
     }
     // a cell without any content (no shapes, no instances): alone, or placed by the first cell
     let blank = c.cost(3, "blank-cell");
@@ -446,7 +468,7 @@ impl CaseDriver for C07Lib {
         require_tags(stats, &NET_TAGS)?;
         require_tags(stats, &LP_TAGS)?;
         require_tags(stats, &UNIT_TAGS)?;
-        require_tags(stats, &["cells:1", "cells:2", "cells:3", "inst:angle-Some(0)", "inst:second-placement", "inst:shared-leaf", "second:named-same-layer-other-purpose", "second:named-other-layer-same-place", "second:named-listed-first", "blank:unreferenced", "blank:instantiated", "gds:label-inside-its-shape"])?;
+        require_tags(stats, &["cells:1", "cells:2", "cells:3", "inst:angle-Some(0)", "inst:second-placement", "inst:shared-leaf", "second:named-same-layer-other-purpose", "second:named-other-layer-same-place", "second:named-listed-first", "blank:unreferenced", "blank:instantiated", "names:case-variants", "gds:label-inside-its-shape"])?;
         require_outcomes(stats, &["ok"])
     }
 }
